@@ -18,8 +18,8 @@ func init() { runners["C01"] = runC01 }
 
 type hnCfg struct {
 	M, MMax, MMax0, Ef, EfC int
-	Heur, Extend, Keep     bool
-	Space                  string
+	Heur, Extend, Keep      bool
+	Space                   string
 }
 type hnOp struct {
 	Op    string            `json:"op"` // insert remove search reload
@@ -30,12 +30,12 @@ type hnOp struct {
 	K     int               `json:"k,omitempty"`
 }
 type hnObs struct {
-	Status string              `json:"status,omitempty"`
+	Status string                `json:"status,omitempty"`
 	Dump   *index.VerifIndexDump `json:"-"`
-	Entry  string              `json:"entry,omitempty"`
-	Len    int                 `json:"len"`
-	Result []hnRes             `json:"result,omitempty"`
-	IsRes  bool                `json:"is_result,omitempty"`
+	Entry  string                `json:"entry,omitempty"`
+	Len    int                   `json:"len"`
+	Result []hnRes               `json:"result,omitempty"`
+	IsRes  bool                  `json:"is_result,omitempty"`
 	coq    string
 }
 type hnRes struct {
@@ -118,7 +118,13 @@ func runHnCase(c *hnCase) {
 			ob.Status = errClass(idx.Remove(mustUUID(o.Id)))
 		case "reload":
 			var buf bytes.Buffer
+			// the target already holds other items (a replica brought up to date by a snapshot): Load replaces them
 			fresh := newIndexFor(c)
+			if len(c.Vecs) > 0 {
+				for k, jid := range []string{"ffffffff-0000-4000-8000-00000000000a", "ffffffff-0000-4000-8000-00000000000b", "ffffffff-0000-4000-8000-00000000000c"} {
+					fresh.Insert(mustUUID(jid), f32bitsVec(c.Vecs[k%len(c.Vecs)]), index.Metadata{"stale": "yes"}, k%2)
+				}
+			}
 			if err := idx.Save(&buf, false); err != nil {
 				ob.Status = "other:save:" + err.Error()
 			} else if err := fresh.Load(&buf, false); err != nil {
@@ -329,12 +335,19 @@ func hnCorpus() []hnCase {
 		c = append([]hnCase{c}, c2)[0]
 		extra = append(extra, c2)
 	}
+	// everything removed, then save-and-load (a zero-byte snapshot) into an index that holds other items: the loaded
+	// index is empty - no entry point, nothing to find - and usable
+	c3 := hnCase{Dim: 1, Cfg: hnCfg{M: 2, MMax: 2, MMax0: 4, Ef: 100, EfC: 100, Keep: true, Space: "euclidean"}, Vecs: vs, Regime: false, Note: "empty snapshot into a used index"}
+	c3.Ops = append(c3.Ops, hnOp{Op: "insert", Id: ids[0], Vec: 0, Level: 1}, hnOp{Op: "insert", Id: ids[1], Vec: 1, Level: 0},
+		hnOp{Op: "remove", Id: ids[0]}, hnOp{Op: "remove", Id: ids[1]}, hnOp{Op: "reload"}, hnOp{Op: "search", Vec: 5, K: 5},
+		hnOp{Op: "insert", Id: ids[2], Vec: 2, Level: 0}, hnOp{Op: "search", Vec: 5, K: 5})
+	extra = append(extra, c3)
 	return append([]hnCase{c}, extra...)
 }
 
 func runC01(a *args) error {
 	r := newRng(a.seed)
-	st := newStats("histories of 5..40 ops (thorough ..120) over 3..12 ids and a pool of 5..14 vectors (dims 1..4): insert 50% (levels 0..3, metadata shapes), remove 22%, search 24% (k in 0,1,2,3,10), save+load 4%; M in {1,2,3,16}, simple and heuristic selection (extend 1/8), three metrics; half of the cases in the deterministic regime (row-wise distinct distances, ef=efConstruction=100): full graph compared after every op; the others with ef in {1,2,5}, efC in {1,3,10}: statuses, membership, counters, levels compared; every search checked against the search post-condition; non-trivial = >= 1 removal of a linked item and >= 1 search on >= 2 live items; distinct by hash of (cfg, ops)")
+	st := newStats("histories of 5..40 ops (thorough ..120) over 3..12 ids and a pool of 5..14 vectors (dims 1..4): insert 50% (levels 0..3, metadata shapes), remove 22%, search 24% (k in 0,1,2,3,10), save+load 4% (into an index that already holds three other items); M in {1,2,3,16}, simple and heuristic selection (extend 1/8), three metrics; half of the cases in the deterministic regime (row-wise distinct distances, ef=efConstruction=100): full graph compared after every op; the others with ef in {1,2,5}, efC in {1,3,10}: statuses, membership, counters, levels compared; every search checked against the search post-condition; non-trivial = >= 1 removal of a linked item and >= 1 search on >= 2 live items; distinct by hash of (cfg, ops)")
 	var cases []hnCase
 	if a.replay != "" {
 		var c hnCase
